@@ -87,16 +87,55 @@ def first(model, g, n, rel, label):
     return sorted(m for m, r in a[n] if r == rel and cls(model, g, m) == label)
 
 
-def two_hop(model, g, n, rel1, l1, rel2, l2):
+def two_hop(model, g, n, rel1, l1, rel2, l2, ignore_rel2=False):
     need(model, g, n)
     a = adj(model, g)
     out = []
     for m, r in a[n]:
         if r == rel1 and cls(model, g, m) == l1:
+            if ignore_rel2:
+                # exactly what the recorded defect computes: when some edge of m has another relation, m itself
+                # (not the far end of that edge) is dropped from m's neighbour set
+                drop_m = any(r2 != rel2 for _, r2 in a[m])
+                for k in sorted(set(k for k, _ in a[m])):
+                    if not (drop_m and k == m) and cls(model, g, k) == l2 and k != n:
+                        out.append([m, k])
+                continue
             for k, r2 in a[m]:
                 if r2 == rel2 and cls(model, g, k) == l2 and k != n:
                     out.append([m, k])
     return sorted(out)
+
+
+def two_hop_values(w, s, oracle, real_fn, good_fn, known_bad_fn):
+    """
+    run a query derived from the two-hop query on both backends; classify a wrong answer as the known
+    'second hop relation ignored' symptom only when it equals exactly what that defect produces
+    """
+    try:
+        good = ('ok', good_fn())
+    except ModelExc as e:
+        good = ('exc', e.kind)
+    bad = None
+    if good[0] == 'ok':
+        bad = known_bad_fn()
+        if 'two_hop_rel2' in w.avoid and canon(bad) != canon(good[1]):
+            w.stats.inc('probe.two_hop.avoided_known_trigger')
+            raise SkipStep()
+    for b in ('shared', 'disjoint'):
+        out = w.real_call(b, real_fn)
+        if out[0] != good[0] or (out[0] == 'exc' and out[1] != good[1]):
+            w.flag('C06', oracle, {'store': b, 'symptom': 'outcome', 'got': out[1] if out[0] == 'exc' else 'ok',
+                                   'want': good[1] if good[0] == 'exc' else 'ok'},
+                   '%s on %s store: got %s, expected %s; step=%s' % (s['op'], b, out, good, canon(s)))
+        elif out[0] == 'ok' and canon(out[1]) != canon(good[1]):
+            sym = 'second_hop_relation_ignored' if canon(out[1]) == canon(bad) else 'wrong_result'
+            w.flag('C06', oracle, {'store': b, 'symptom': sym},
+                   '%s on %s store returned %s, expected %s; step=%s' % (s['op'], b, canon(out[1])[:300],
+                                                                          canon(good[1])[:300], canon(s)))
+    if good[0] == 'ok' and good[1]:
+        w.stats.inc('probe.%s.nonempty' % s['op'])
+    return set(), 'ok' if good[0] == 'ok' else good[1]
 
 
 def bfs_dist(a, src, dst, rel):
@@ -176,13 +215,12 @@ def do_query(w, s):
         _retag(w, 'q_first')
         return set(), 'ok'
     if op == 'q_two_hop':
-        w.three_way(s, lambda b: sorted(pg(b).get_first_and_second_neighbor(node_id=s['n'], rel1=s['rel1'],
-                                                                             node1_label=s['l1'], rel2=s['rel2'],
-                                                                             node2_label=s['l2'])),
-                    lambda: two_hop(m, g, s['n'], s['rel1'], s['l1'], s['rel2'], s['l2']), False,
-                    value_oracle='q_two_hop')
-        _retag(w, 'q_two_hop')
-        return set(), 'ok'
+        args = (m, g, s['n'], s['rel1'], s['l1'], s['rel2'], s['l2'])
+        return two_hop_values(w, s, 'q_two_hop',
+                              lambda b: sorted(pg(b).get_first_and_second_neighbor(
+                                  node_id=s['n'], rel1=s['rel1'], node1_label=s['l1'], rel2=s['rel2'],
+                                  node2_label=s['l2'])),
+                              lambda: two_hop(*args), lambda: two_hop(*args, ignore_rel2=True))
     if op == 'q_parent':
         def model():
             ids = first(m, g, s['n'], s['rel'], s['parent'])
@@ -203,27 +241,25 @@ def do_query(w, s):
         _retag(w, 'q_parent')
         return set(), 'ok'
     if op == 'q_peers':
-        def model():
-            c = two_hop(m, g, s['n'], 'connects', 'Link', 'connects', 'ConnectionPoint')
+        def peers(ignore):
+            c = two_hop(m, g, s['n'], 'connects', 'Link', 'connects', 'ConnectionPoint', ignore_rel2=ignore)
             return None if not c else sorted(x[1] for x in c)
 
         def real(b):
             r = pg(b).find_peer_connection_points(node_id=s['n'])
             return None if r is None else sorted(r)
-        w.three_way(s, real, model, False, value_oracle='q_peers')
-        _retag(w, 'q_peers')
-        return set(), 'ok'
+        return two_hop_values(w, s, 'q_peers', real, lambda: peers(False), lambda: peers(True))
     if op == 'q_cps':
         which = s['which']
 
-        def model():
+        def model(ignore=False):
             need(m, g, s['n'])
             c = cls(m, g, s['n'])
             if which == 'node_or_component':
                 if c not in ('NetworkNode', 'Component', 'CompositeNode'):
                     raise ModelExc(QE)
                 return sorted(x[1] for x in two_hop(m, g, s['n'], 'has', 'NetworkService', 'connects',
-                                                    'ConnectionPoint'))
+                                                    'ConnectionPoint', ignore_rel2=ignore))
             if which == 'ns_or_link':
                 if c not in ('Link', 'NetworkService'):
                     raise ModelExc(QE)
@@ -238,9 +274,7 @@ def do_query(w, s):
             if which == 'ns_or_link':
                 return sorted(pg(b).get_all_ns_or_link_connection_points(link_id=s['n']))
             return sorted(pg(b).get_all_child_connection_points(interface_id=s['n']))
-        w.three_way(s, real, model, False, value_oracle='q_cps')
-        _retag(w, 'q_cps')
-        return set(), 'ok'
+        return two_hop_values(w, s, 'q_cps', real, lambda: model(False), lambda: model(True))
 
     if op == 'q_shortest':
         a_, z_, rel = s['a'], s['z'], s['rel']
